@@ -20,6 +20,10 @@ type c18Case struct {
 	Spec gen.MsgSpec `json:"spec"`
 	// AltChunks is a second chunk plan applied to every producer for the metamorphic comparison.
 	AltChunks []int `json:"alt_chunks,omitempty"`
+	// FailBefore > 0: before the judged render, ANOTHER message (quoted-printable body and an
+	// attachment) is rendered into a sink that fails after that many bytes, as a failed delivery
+	// earlier in the same process would.
+	FailBefore int `json:"fail_before,omitempty"`
 }
 
 func c18Render(spec *gen.MsgSpec) ([]byte, *gen.Built, error) {
@@ -36,6 +40,15 @@ func c18Render(spec *gen.MsgSpec) ([]byte, *gen.Built, error) {
 
 func c18Run(c c18Case) []*core.Violation {
 	rec := core.Rec("C18")
+	if c.FailBefore > 0 {
+		subj := "an earlier message"
+		other := gen.MsgSpec{Encoding: "quoted-printable", FixedDate: true, From: "a@verif.example", To: []string{"b@verif.example"}, Subject: &subj,
+			Parts:       []gen.PartSpec{{CType: "text/plain", Content: []byte(strings.Repeat("EARLIER-MESSAGE-TEXT that must never show up anywhere else ", 12)), Via: "string"}},
+			Attachments: []gen.FileSpec{{Name: "earlier.bin", Content: bytes.Repeat([]byte("EARLIERFILE"), 40), Source: "reader"}}}
+		if ob, oerr := gen.Build(&other, env); oerr == nil {
+			_, _ = ob.Msg.WriteTo(&faultSink{limit: c.FailBefore, partial: true})
+		}
+	}
 	out, b, err := c18Render(&c.Spec)
 	if b == nil {
 		rec.Skip()
@@ -46,6 +59,9 @@ func c18Run(c c18Case) []*core.Violation {
 	}
 	root := mimeread.Parse(out)
 	var vs []*core.Violation
+	if c.FailBefore > 0 && (bytes.Contains(out, []byte("EARLIER-MESSAGE-TEXT")) || bytes.Contains(out, []byte("EARLIERFILE"))) {
+		vs = append(vs, core.V("foreign-content", "the output contains text of a message that was rendered (and failed) earlier in the same process"))
+	}
 	for _, p := range root.AllProblems() {
 		vs = append(vs, core.V("structure", "%s", p))
 	}
@@ -231,7 +247,8 @@ func c18Texts(s *gen.MsgSpec) []string {
 	return out
 }
 
-var c18Words = []string{"a", "of", "the", "word", "longer-word", "Grüße", "日本語", "x=y", "semi;colon", "(paren)", "<angle>", "q?mark", "under_score", "=?", "?=", "tab\tbed"}
+var c18Words = []string{"a", "of", "the", "word", "longer-word", "Grüße", "日本語", "x=y", "semi;colon", "(paren)", "<angle>", "q?mark", "under_score", "=?", "?=", "tab\tbed",
+	"line\nbreak", "carriage\rreturn", "crlf\r\nX-C18-Injected: 1", "nul\x00byte", "%s%d"}
 
 // c18Value draws a header value: words of length 0..300 separated by 1..3 blanks, optionally with
 // leading/trailing blanks.
@@ -323,6 +340,9 @@ func c18Gen(t *rapid.T) c18Case {
 		spec.Attachments[i].Desc = strings.TrimSpace(longDesc("adesc"))
 	}
 	c := c18Case{Spec: *spec}
+	if rapid.IntRange(0, 4).Draw(t, "failbefore") == 0 {
+		c.FailBefore = rapid.SampledFrom([]int{300, 420, 460, 500, 600, 800, 1000, 1400}).Draw(t, "failbeforeat")
+	}
 	c.AltChunks = rapid.SampledFrom([][]int{nil, {1}, {2, 3, 5, 7, 11, 13}, {3}, {57}, {76}, {56}, {58}, {75}, {77}, {4}, {19, 57, 1}}).Draw(t, "altchunks")
 	return c
 }
@@ -330,7 +350,7 @@ func c18Gen(t *rapid.T) c18Case {
 func TestC18(t *testing.T) {
 	rec := core.Rec("C18")
 	rec.Rule = "rapid draws a message program with header values made of 1..25 words of 0..300 characters separated by 1..3 blanks (Subject, 0..2 generic headers with 1..3 values, To lists of 1..20 and Cc lists of 1..6 mailboxes with long display names/local parts, long multi-word file names, part and file descriptions), " +
-		"QP/base64/8bit bodies and files with contents around the 57/76-byte wrapping points, and producers that chunk their writes (1-byte, primes, 3/57/76 +-1, random); a second chunk plan is drawn for the metamorphic comparison. " +
+		"QP/base64/8bit bodies and files with contents around the 57/76-byte wrapping points, and producers that chunk their writes (1-byte, primes, 3/57/76 +-1, random); a second chunk plan is drawn for the metamorphic comparison; header words occasionally contain LF, CR, CRLF + field, NUL; one case in five is preceded by the failed render of another message in the same process. " +
 		"Oracle on raw lines of WriteTo's output: CRLF only, no bare CR/LF in header sections and QP/base64 bodies; encoded body lines <= 76; header lines > 78 only if they have no folding opportunity; Subject/generic fields unfold and decode to exactly what was set (only leading/trailing blanks trimmed), address fields to the mailboxes set; leaves decode to the supplied content; every leaf is byte-identical under the two chunkings. " +
 		"Non-trivial: a value longer than 60 bytes, content longer than one encoded line, or a chunked producer. Distinct by (shape key, longest word decile, number of recipients, chunk plans)."
 	rec.Assumptions = []string{"a header line has a folding opportunity iff, after the field name (or the leading blank of a continuation), it contains a blank between non-blank text", "8bit/7bit bodies are caller content and carry no line rules"}
